@@ -36,6 +36,15 @@ MTriples == TLCEval({<<q[1], q[2], l>> : q \in {x \in MPairs : PairHash(x) % (3 
 Multi == {[kind |-> "clip", lines |-> <<p[1], p[2]>>, ml |-> TRUE, poly |-> P] : p \in MPairs, P \in Polys}
          \cup {[kind |-> "clip", lines |-> t, ml |-> TRUE, poly |-> P] :          \* three members: more members than most polygons have rings
                   t \in {x \in MTriples : Apart(x[1], x[3]) /\ Apart(x[2], x[3])}, P \in Polys}
+(* many members: nine short disjoint segments (4a, 4b)-(4a+2, 4b+4), a, b in 0..2, the same nine reversed, against
+   triangles whose corners lie on an odd sub-lattice (chosen by TLC among those in general position with the segments):
+   more members than any polygon here has rings, and more than a handful *)
+NineSegs == [i \in 1..9 |-> LET x == 4 * ((i - 1) % 3)  y == 4 * ((i - 1) \div 3) IN << <<x, y>>, <<x + 2, y + 4>> >>]
+NineRev == [i \in 1..9 |-> << NineSegs[10 - i][2], NineSegs[10 - i][1] >>]
+OddPts == {<<x, y>> : x \in {1, 5, 9, 13}, y \in {1, 5, 9, 13}}
+TriCands == TLCEval({t \in [1..3 -> OddPts] : Area2(t) > 0 /\ HashL(t, 1) % 7 = 0 /\ GeneralPosition(NineSegs, <<t>>)})
+Many == {[kind |-> "clip", lines |-> ls, ml |-> TRUE, poly |-> [t |-> ty, polys |-> << <<t>> >>]] :
+            ls \in {NineSegs, NineRev}, t \in TriCands, ty \in {"Polygon", "MultiPolygon"}}
 (* lines all of whose vertices are inside P while P is not convex / has a hole / has two members: the line may leave P
    between its vertices (every 2-vertex line of the lattice, and 3-vertex lines thinned by M3 / 8) *)
 Tricky == { [t |-> "Polygon", polys |-> << <<Concave>> >>], [t |-> "Polygon", polys |-> << <<Quad, Hole>> >>],
@@ -47,7 +56,7 @@ InsideCases == {[kind |-> "clip", lines |-> <<l>>, ml |-> FALSE, poly |-> P] : l
 (* the same cases at other magnitudes: the harness multiplies every coordinate by 2^sh (exact) and divides the result again *)
 Scaled == {[kind |-> "clip", lines |-> x.lines, ml |-> x.ml, poly |-> x.poly, sh |-> s] :
               x \in {y \in Single : HashL(y.lines[1], 1) % 3 = 0}, s \in {-20, 20}}
-GenInit == /\ c \in {x \in Single \cup Multi \cup Scaled : GeneralPosition(x.lines, RingsOf(x.poly))}
+GenInit == /\ c \in {x \in Single \cup Multi \cup Scaled \cup Many : GeneralPosition(x.lines, RingsOf(x.poly))}
                    \cup {x \in InsideCases : AllInside(x.lines[1], x.poly) /\ GeneralPosition(x.lines, RingsOf(x.poly))}
            /\ PrintT(ToJson(c))
 GenSpec == GenInit /\ [][UNCHANGED c]_c
